@@ -369,7 +369,7 @@ def write_geom(m, dirpath, fmt="tri", style="1.1", rng=None, stem="model", token
     is left in write_geom.last."""
     files = write_meshes(m, dirpath, fmt)
     T = tokens if tokens is not None else geom_tokens(m, style, rng)
-    write_geom.last = T
+    write_geom.last = T; write_geom.files = files
     if T is None: return None
     g = os.path.join(dirpath, stem + ".geom")
     L = []
@@ -473,3 +473,66 @@ def cond_wire(m, lines, has_cond, header=True, ids=None):
             if it[0] == "c": w += [0, 0]
             else: w += [1, nid(it[1])]; fl.append(float(it[2]))
     return w, fl
+
+# ------------------------------------------------------------------ character-level wire (coq/Geom/RunC11Lex.v)
+def chars(text): return [len(text)] + list(text)        # text: bytes
+
+def lex_wire(m, T, files, geom_text, cond_text, has_cond, old, isign, probe_wire):
+    """integer wire of a case whose .geom / .cond files are handed to the model as characters; the mesh payloads follow
+    in the order in which the description names them, each with the path it is stored under"""
+    pid = point_ids(m["meshes"])
+    w = [1 if old else 0] + chars(geom_text) + [len(T["meshes"])]
+    for given, k in T["meshes"]:
+        name, vs, ts = m["meshes"][k]
+        w += chars(files[k].encode()) + [len(pid[k])] + pid[k] + [len(ts)] + [x for t in ts for x in t]
+    w += [len(isign)] + list(isign) + list(probe_wire)
+    w += [1 if has_cond else 0] + chars(cond_text if has_cond else b"")
+    return w
+
+LEX_MUTATIONS = ["two-blanks", "space-before-colon", "tab-after-keyword", "crlf", "no-final-newline", "missing-colon",
+                 "leading-blank-lines", "comment-before-header", "one-domain-too-many", "one-domain-too-few", "comments-everywhere"]
+
+def mutate_geom(text, kind, rng):
+    """textual variants of a .geom file aimed at the lexer (io_utils); returns bytes or None if not applicable"""
+    t = text.decode()
+    import re
+    if kind == "two-blanks":
+        kw = rng.choice(["Mesh ", "Interface ", "Domain "])
+        if kw not in t: return None
+        return t.replace(kw, kw + " ", 1).encode()
+    if kind == "space-before-colon":
+        mm = re.search(r"^(Domain|Interface|Mesh) (\S+):", t, re.M)
+        if not mm: return None
+        return (t[:mm.end() - 1] + " :" + t[mm.end():]).encode()
+    if kind == "tab-after-keyword":
+        return re.sub(r"^(Domain|Interface|Mesh) ", lambda g: g.group(1) + "\t", t, flags=re.M).encode()
+    if kind == "crlf": return t.replace("\n", "\r\n").encode()
+    if kind == "no-final-newline": return t.rstrip("\n").encode()
+    if kind == "missing-colon":
+        mm = re.search(r"^Domain (\S+):", t, re.M)
+        if not mm: return None
+        return (t[:mm.end() - 1] + t[mm.end():]).encode()
+    if kind == "leading-blank-lines": return ("\n  \n" + t).encode()
+    if kind == "comment-before-header": return ("# a comment\n" + t).encode()
+    if kind in ("one-domain-too-many", "one-domain-too-few"):
+        mm = re.search(r"^Domains (\d+)", t, re.M)
+        if not mm: return None
+        n = int(mm.group(1)) + (1 if kind.endswith("many") else -1)
+        return (t[:mm.start()] + "Domains %d" % n + t[mm.end():]).encode()
+    if kind == "comments-everywhere":
+        lines = t.split("\n"); out = [lines[0]]
+        for l in lines[1:]:
+            if rng.random() < 0.5: out.append(rng.choice(["#", "# Mesh x: \"y\"", "   # c", "\t#Domains 9"]))
+            out.append(l)
+        return "\n".join(out).encode()
+    return None
+
+def mutate_cond(text, kind, rng):
+    t = text.decode()
+    if kind == "spaces-in-header": return t.replace("(Conductivities)", "(  Conductivities )", 1).encode()
+    if kind == "crlf": return t.replace("\n", "\r\n").encode()
+    if kind == "no-final-newline": return t.rstrip("\n").encode()
+    if kind == "trailing-comment": return (t + "# the end").encode()
+    if kind == "header-lowercase": return t.replace("Properties", "properties", 1).encode()
+    return None
+COND_MUTATIONS = ["spaces-in-header", "crlf", "no-final-newline", "trailing-comment", "header-lowercase"]
